@@ -343,7 +343,7 @@ def c06_extra(Job, tier):
 
 
 def c07_extra(Job, tier):
-    return trackcheck_jobs(Job) + mmb_jobs(Job) + write_span_jobs(Job) + selector_jobs(Job) + [j for j in names_jobs(Job) if "less" in j.name] + [j for j in space_jobs(Job) if "start_sec" in j.name] + hfegeom_jobs(Job) + [j for j in gz_jobs(Job) if "inflate_loop" in j.name] + [j for j in opus_jobs(Job) if "opus_ctor_head" in j.name or "opus_volume_table" in j.name or "location_ctor" in j.name] + [j for j in hfelut_jobs(Job) if "read_track" in j.name or "decode_header" in j.name]
+    return trackcheck_jobs(Job) + mmb_jobs(Job) + write_span_jobs(Job) + selector_jobs(Job) + [j for j in names_jobs(Job) if "less" in j.name] + [j for j in space_jobs(Job) if "start_sec" in j.name] + hfegeom_jobs(Job) + [j for j in fragment_jobs(Job) if "valid_" in j.name] + [j for j in gz_jobs(Job) if "inflate_loop" in j.name] + [j for j in opus_jobs(Job) if "opus_ctor_head" in j.name or "opus_volume_table" in j.name or "location_ctor" in j.name] + [j for j in hfelut_jobs(Job) if "read_track" in j.name or "decode_header" in j.name]
 
 
 # ---- destination directory / make_name (C12) ---------------------------------------------------------------------------
@@ -537,7 +537,7 @@ def geometry_jobs(Job, cfg=CFG_NDEBUG, tier="quick"):
 
 
 def c13_extra(Job, tier):
-    return geometry_jobs(Job) + [j for j in fragment_jobs(Job) if "valid_head" in j.name] + [j for j in opus_jobs(Job) if "extents" in j.name or "opus_ctor_head" in j.name or "opus_volume_table" in j.name]
+    return geometry_jobs(Job) + [j for j in fragment_jobs(Job) if "valid_" in j.name] + [j for j in opus_jobs(Job) if "extents" in j.name or "opus_ctor_head" in j.name or "opus_volume_table" in j.name]
 
 
 def hints_jobs(Job, cfg=CFG_NDEBUG, tier="quick"):
@@ -579,7 +579,7 @@ def names_jobs(Job, cfg=CFG_NDEBUG, tier="quick"):
             J("has_name", "h_has_name", ["CatalogEntry_has_name"], replace=["case_insensitive_equal", "CatalogEntry_directory"])]    # CatalogEntry::name inlined (its contract speaks about one ghost position only)
 
 
-FRAG_GROUP = ["sector_count", "byte_to_ascii7", "convert_title", "CatalogFragment_ctor", "catalog_sectors_for_format", "data_sectors_reserved_for_catalog", "CatalogFragment_valid_head"]
+FRAG_GROUP = ["sector_count", "byte_to_ascii7", "convert_title", "CatalogFragment_ctor", "catalog_sectors_for_format", "data_sectors_reserved_for_catalog", "CatalogFragment_valid_head", "CatalogFragment_valid_loop"]
 
 
 def fragment_jobs(Job, cfg=CFG_NDEBUG, tier="quick"):
@@ -587,7 +587,9 @@ def fragment_jobs(Job, cfg=CFG_NDEBUG, tier="quick"):
         return Job("D_%s_%s" % (name, cfg[0]), "harness/dfs_fragment.c", entry, enforce=enforce, defines=list(cfg[1]), extract=ext(FRAG_GROUP), tier=tier, **kw)
     return [J("convert_title", "h_title", ["convert_title"], cbmc=["--unwindset", "convert_title_wrapped_for_contract_checking.0:9,convert_title_wrapped_for_contract_checking.1:5,convert_title.0:9,convert_title.1:5,cstr_rtrim.0:17", "--unwinding-assertions"]),
             J("catalog_fragment_ctor", "h_fragment", ["CatalogFragment_ctor"], replace=["sector_count"]),
-            J("catalog_fragment_valid_head", "h_valid_head", ["CatalogFragment_valid_head"], replace=["catalog_sectors_for_format", "data_sectors_reserved_for_catalog"])]
+            J("catalog_fragment_valid_head", "h_valid_head", ["CatalogFragment_valid_head"], replace=["catalog_sectors_for_format", "data_sectors_reserved_for_catalog"]),
+            J("catalog_fragment_valid_loop", "h_valid_loop", ["CatalogFragment_valid_loop"], loops=True, solver="portfolio",
+              cbmc=["--unwindset", "h_fill_valid_tables.0:33", "--unwinding-assertions"])]
 
 
 def extractwrite_jobs(Job, cfg=CFG_NDEBUG, tier="quick"):
